@@ -64,6 +64,11 @@ func HasRootDomain(url string, root string) bool {
 		url = "http:" + url
 	}
 
+	// ParseRequestURI assumes there is no fragment
+	if i := strings.IndexByte(url, '#'); i >= 0 {
+		url = url[:i]
+	}
+
 	parsedURL, err := nurl.ParseRequestURI(url)
 	if err != nil {
 		return false
